@@ -608,6 +608,26 @@ def c_case(sc, o):
     return f"({c_scenario(sc, o['match'] is True)}, {c_obs(o)})"
 
 
+def answer_of(f):
+    """a cluster fault -> the answer constructor of model/RfFaults.v"""
+    if f is None:
+        return "AOk"
+    if f[0] == "http":
+        return {404: "ANotFound", 409: "AConflict"}.get(f[1], "AServerErr")
+    if f[0] in ("exc_before", "exc_after"):
+        return "AExc"
+    raise ValueError(f"fault {f!r} has no model counterpart")
+
+
+def c_fault_case(sc, o, faults):
+    """(scenario, (answer to the read, answer to the write), observation); the write is also answered 409 /
+    404 by the cluster itself when the read was made to say 'not found' although the object is there"""
+    ag, am = answer_of(faults.get(0)), answer_of(faults.get(1))
+    if ag == "ANotFound" and am == "AOk" and sc.get("live") is not None and len(o["calls"]) > 1 and o["calls"][1]["m"] == "POST":
+        am = "AConflict"
+    return f"({c_scenario(sc, o['match'] is True)}, ({ag}, {am}), {c_obs(o)})"
+
+
 # --------------------------------------------------------------------------------------------
 # deriving the live object of a scenario from what the function itself would create
 # --------------------------------------------------------------------------------------------
